@@ -15,6 +15,9 @@
 //! Wikipedia
 //! <https://en.wikipedia.org/wiki/Quadratic_sieve>
 
+// Verification hooks are guarded by `--cfg yamaquasi_verif` (off by default).
+#![allow(unexpected_cfgs)]
+
 pub mod arith;
 pub mod arith_fft;
 pub mod arith_gcd;
